@@ -1,5 +1,6 @@
 /-
-  C01 gluing: a concrete table refuting `C01Glue.lookup_follows_rule_statement`.
+  C01 gluing: a concrete table refuting the first wording of the gluing property
+  (`C01Glue.lookup_follows_rule_first_wording`).
   One recorded entry (instant 0, 1970), footer rule tabulated for the years 1000 … 1401: every
   rule instant of those years is before the recorded entry, so nothing is generated, the table is
   just the recorded entry, and `BreakTime` maps every later instant 400·s years back into the time
